@@ -8,7 +8,7 @@ CHECK = {
     "thorough": {"shards": 16, "timeout": 3600},
     "required_categories": ["type_Cartesian2f", "type_Cartesian2d", "type_Cartesian3f", "type_Cartesian3d",
                             "type_Homogeneous2f", "type_Homogeneous2d", "type_Homogeneous3f", "type_Homogeneous3d",
-                            "cloud_plane", "cloud_room", "cloud_sphere_around_sensor", "cloud_noisy_plane", "cloud_blob", "cloud_in_small_units", "cloud_with_point_at_origin",
+                            "cloud_plane", "cloud_room", "cloud_regular_room", "cloud_sphere_around_sensor", "cloud_noisy_plane", "cloud_blob", "cloud_in_small_units", "cloud_with_point_at_origin",
                             "prefill_default_constructed", "prefill_zero", "estimator_and_buffer_reused", "fresh_estimator_per_cloud"],
     "required_oracles": ["unit_length", "faces_sensor", "least_variance_direction.angle", "planar.normal_is_surface_normal",
                          "planar.curvature_zero", "curvature.upper", "curvature.lower", "rotation_equivariance"],
